@@ -124,3 +124,30 @@ Lemma handler_table_clunk : forall fs,
   handler_calls ("tclunk", fs) = [mkbc "Close" (OnFid (fidof (fld "fid" fs))) []] /\
   In "call:f.file.Close()" (events "fidRef.DecRef").
 Proof. intros fs. split; [reflexivity|vm_compute; tauto]. Qed.
+
+(** ---- the handlers with loops and branches: Twalk, Twalkgetattr, Txattrwalk, Tattach ----
+    Their backend calls and delegations, as extracted from handlers.go, are exactly these (so the model's
+    vocabulary for them — Walk / WalkGetAttr with the names, GetAttr(AttrMaskAll) on the walked file, Close of
+    it when that failed, GetXattr(t.Name) / ListXattrs(), Attach() — is what the source has).  WHICH of them
+    run, in what order and how often (one walkOne per component, the ENOSYS fallback from WalkGetAttr to
+    Walk + GetAttr, the branch on len(t.Name)) is control flow that ClientModel.handler_calls models by hand
+    and that only the differential runs check. *)
+Definition calls_and_delegations (h : string) : list string :=
+  filter (fun e => starts_with "call:" e || starts_with "delegate:" e) (events h).
+
+Lemma walk_handlers_events :
+  calls_and_delegations "twalk.handle" = ["delegate:doWalk(cs, ref, t.Names, false)"] /\
+  calls_and_delegations "twalkgetattr.handle" = ["delegate:doWalk(cs, ref, t.Names, true)"] /\
+  calls_and_delegations "doWalk" =
+    ["delegate:walkOne(nil, ref.file, ref.pathNode, nil, getattr)";
+     "delegate:walkOne(qids, walkRef.file, walkRef.pathNode, names[i : i+1], true)"] /\
+  calls_and_delegations "walkOne" =
+    ["call:from.WalkGetAttr(names)"; "call:from.Walk(names)"; "call:sf.GetAttr(AttrMaskAll)"; "call:sf.GetAttr(AttrMaskAll)";
+     "call:sf.Close()"; "call:sf.Close()"] /\
+  calls_and_delegations "txattrwalk.handle" = ["call:ref.file.GetXattr(t.Name)"; "call:ref.file.ListXattrs()"] /\
+  calls_and_delegations "tattach.handle" =
+    ["call:attacher.Attach()"; "call:sf.GetAttr(AttrMaskAll)"; "delegate:doWalk(cs, root, names, false)"] /\
+  with_prefix "lookup:" (events "twalk.handle") = ["t.fid"] /\
+  with_prefix "lookup:" (events "twalkgetattr.handle") = ["t.fid"] /\
+  with_prefix "lookup:" (events "txattrwalk.handle") = ["t.fid"].
+Proof. vm_compute. repeat split. Qed.
